@@ -99,21 +99,41 @@ impl Clone for ApiEndpointBodyContentType {
     #[verifier::external_body]
     fn clone(&self) -> (r: Self) ensures r == *self { unimplemented!() }
 }
-/// the two decoders: partial functions of the body bytes (None: the decoder refuses them)
-pub uninterp spec fn json_value<T>(bytes: Seq<u8>) -> Option<T>;
+/// serde_json.  `T::deserialize(&mut Deserializer)` (here through serde_path_to_error) parses ONE value from the
+/// front of the input and leaves the rest unread; a whole-document decoder (serde_json::from_slice) additionally
+/// demands, with `Deserializer::end`, that only whitespace follows.  C10's "malformed JSON" is about the whole body.
+pub uninterp spec fn json_front<T>(bytes: Seq<u8>) -> Option<(T, Seq<u8>)>;
+pub uninterp spec fn only_whitespace(rest: Seq<u8>) -> bool;
+pub open spec fn json_value<T>(bytes: Seq<u8>) -> Option<T> {
+    match json_front::<T>(bytes) { Some((v, rest)) => if only_whitespace(rest) { Some(v) } else { None }, None => None }
+}
+/// serde_urlencoded consumes the whole input: a partial function of the body bytes
 pub uninterp spec fn urlencoded_value<T>(bytes: Seq<u8>) -> Option<T>;
-pub struct JsonDeserializer { pub bytes: Ghost<Seq<u8>> }
+/// the unread input of a serde_json::Deserializer
+pub struct JsonDeserializer { pub rest: Ghost<Seq<u8>> }
 pub struct UrlDeserializer { pub bytes: Ghost<Seq<u8>> }
 #[verifier::external_body]
 #[derive(Debug)]
 pub struct PathError { _p: u8 }
 #[verifier::external_body]
-pub fn json_deserializer(body: &BytesMut) -> (r: JsonDeserializer) ensures r.bytes@ == body.data@ { unimplemented!() }
+#[derive(Debug)]
+pub struct SerdeJsonError { _p: u8 }
+#[verifier::external_body]
+pub fn json_deserializer(body: &BytesMut) -> (r: JsonDeserializer) ensures r.rest@ == body.data@ { unimplemented!() }
 #[verifier::external_body]
 pub fn urlencoded_deserializer(body: &BytesMut) -> (r: UrlDeserializer) ensures r.bytes@ == body.data@ { unimplemented!() }
 #[verifier::external_body]
 pub fn json_decode<T>(jd: &mut JsonDeserializer) -> (r: Result<T, PathError>)
-    ensures (r is Ok) == (json_value::<T>(old(jd).bytes@) is Some), r is Ok ==> r->Ok_0 == json_value::<T>(old(jd).bytes@)->Some_0 { unimplemented!() }
+    ensures match json_front::<T>(old(jd).rest@) {
+        Some((v, rest)) => r == Ok::<T, PathError>(v) && final(jd).rest@ == rest,
+        None => r is Err,
+    } { unimplemented!() }
+impl JsonDeserializer {
+    /// serde_json::Deserializer::end: Ok iff only whitespace is left
+    #[verifier::external_body]
+    pub fn end(&mut self) -> (r: Result<(), SerdeJsonError>)
+        ensures (r is Ok) == only_whitespace(old(self).rest@) { unimplemented!() }
+}
 #[verifier::external_body]
 pub fn urlencoded_decode<T>(ud: UrlDeserializer) -> (r: Result<T, PathError>)
     ensures (r is Ok) == (urlencoded_value::<T>(ud.bytes@) is Some), r is Ok ==> r->Ok_0 == urlencoded_value::<T>(ud.bytes@)->Some_0 { unimplemented!() }
